@@ -94,6 +94,7 @@ class LoggedList:
         self.items = list(items)
 
     def __iter__(self):
+        self.rec.rec('cycle', 'iter', None)
         return LoggedIter(self.rec, self.items)
 
 
